@@ -352,6 +352,115 @@ def gen_call(rng: random.Random, failing=False, books=None, docs=None):
     return {"op": "uuiddict", "ops": gen_uuid_ops(rng)}, "uuiddict"
 
 
+# ---- documented limits: a small deterministic corpus of workbooks AT and JUST BEYOND each boundary.
+# What the library does there (accept / shorten / reject with an error record / raise) is not C13's
+# business; that it does THE SAME THING on every run, in every process and after every history, is.
+
+LIMITS = {"category_name": 115, "value": 640, "field_key": 36}   # RapidPro's limits the toolkit documents / enforces
+_FILL = ("i would like to receive more information about the weekly parenting sessions for caregivers of teenagers in my district "
+         "and about the programme that starts next month at the community centre near the market ")
+
+
+def text_of(n: int, salt: str = "") -> str:
+    """plain words, exactly n characters, no cell syntax, no blank at either end"""
+    s = (salt + " " if salt else "") + _FILL * (n // len(_FILL) + 1)
+    s = s[:n]
+    return s[:-1] + "x" if s.endswith(" ") else s
+
+
+def _limits_book(rows):
+    for i, r in enumerate(rows):
+        r.setdefault("row_id", str(i + 1))
+    return {"content_index": _csv(["type", "sheet_name", "new_name", "status"], [{"type": "create_flow", "sheet_name": "limits"}]),
+            "limits": _csv(G.HEADERS, rows)}
+
+
+def limits_corpus():
+    """[(name, sheets, beyond)] — beyond: the shape lies beyond a limit (an error is the expected answer)"""
+    out = []
+    L = LIMITS["category_name"]
+    # category names generated from the condition value (condition_name blank)
+    for n in (L, L + 1, L + 25):
+        out.append((f"category_name.auto.{n}", _limits_book([
+            {"type": "send_message", "from": "start", "message_text": "How can we help you?"},
+            {"type": "wait_for_response", "from": "1"},
+            {"type": "send_message", "from": "2", "condition": text_of(n), "condition_type": "has_phrase", "message_text": "We will call you."},
+            {"type": "send_message", "from": "2", "message_text": "Sorry, I did not get that."},
+            {"type": "split_by_value", "from": "4", "message_text": "@fields.topic"},
+            {"type": "send_message", "from": "5", "condition": text_of(n, "topic"), "message_text": "Noted."},
+        ]), n > L))
+    # … made unique by a suffix: the same value under two tests (second name = first + "_alt")
+    for n in (L - 4, L - 3):
+        out.append((f"category_name.auto_suffixed.{n}+4", _limits_book([
+            {"type": "send_message", "from": "start", "message_text": "How can we help you?"},
+            {"type": "wait_for_response", "from": "1"},
+            {"type": "send_message", "from": "2", "condition": text_of(n), "condition_type": "has_phrase", "message_text": "phrase"},
+            {"type": "send_message", "from": "2", "condition": text_of(n), "condition_type": "has_only_phrase", "message_text": "only phrase"},
+        ]), n + 4 > L))
+    # category names given in the sheet
+    for n in (L, L + 1):
+        out.append((f"category_name.given.{n}", _limits_book([
+            {"type": "send_message", "from": "start", "message_text": "Yes or no?"},
+            {"type": "wait_for_response", "from": "1"},
+            {"type": "send_message", "from": "2", "condition": "yes", "condition_name": text_of(n).title(), "message_text": "ok"},
+        ]), n > L))
+    # values of contact fields / flow results
+    V = LIMITS["value"]
+    out.append((f"value.{V}", _limits_book([
+        {"type": "send_message", "from": "start", "message_text": text_of(V + 1, "message")},
+        {"type": "save_value", "from": "1", "message_text": text_of(V), "save_name": "story"},
+        {"type": "save_flow_result", "from": "2", "message_text": text_of(V, "result"), "save_name": "story", "result_category": "Long"},
+    ]), False))
+    for t in ("save_value", "save_flow_result"):
+        out.append((f"value.{t}.{V + 1}", _limits_book([
+            {"type": "send_message", "from": "start", "message_text": "hello"},
+            {"type": t, "from": "1", "message_text": text_of(V + 1), "save_name": "story"},
+            {"type": "send_message", "from": "2", "message_text": "bye"},
+        ]), True))
+    # names whose field key (lower case, blanks → _) reaches the limit
+    K = LIMITS["field_key"]
+    for n in (K, K + 1):
+        name = text_of(n, "My Field").title()
+        out.append((f"field_key.{n}", _limits_book([
+            {"type": "send_message", "from": "start", "message_text": "hello"},
+            {"type": "save_value", "from": "1", "message_text": "v", "save_name": name},
+            {"type": "wait_for_response", "from": "2", "save_name": name},
+            {"type": "send_message", "from": "3", "condition": "a", "message_text": "bye"},
+        ]), n > K))
+        out.append((f"field_key.webhook_result.{n}", _limits_book([
+            {"type": "send_message", "from": "start", "message_text": "hello"},
+            {"type": "call_webhook", "from": "1", "message_text": "{}", "webhook.url": "http://example.com/hook", "webhook.method": "POST", "save_name": name},
+            {"type": "send_message", "from": "2", "condition": "Success", "message_text": "done"},
+        ]), n > K))
+    return out
+
+
+def gen_limits_cases(rng: random.Random):
+    """one case per corpus shape: the same comparisons as for generated calls (fresh process / end of
+    a history in a used process / hash seeds); the history always repeats the call itself once and
+    holds another shape of the corpus, beside ordinary generated calls"""
+    corpus = limits_corpus()
+    cases = []
+
+    def call(k):
+        name, sheets, beyond = corpus[k]
+        spec = {"op": "create_flows", "fmt": rng.choice(["csv", "csv", "xlsx", "json"]), "wbs": [sheets], "outfile": rng.random() < 0.3}
+        if beyond:
+            spec["crit_raises"] = rng.random() < 0.5   # as the CLI: the first CRITICAL record ends the call
+        return spec
+
+    for k, (name, sheets, beyond) in enumerate(corpus):
+        observed = call(k)
+        hist = [(copy.deepcopy(observed), "same_call_again"), (call(rng.randrange(len(corpus))), "another_limits_shape")]
+        for _ in range(rng.randint(0, 2)):
+            c, lb = gen_call(rng, failing=rng.random() < 0.4)
+            hist.append((c, ("failing" if lb.startswith("failing") else "other") + "." + c["op"]))
+        rng.shuffle(hist)
+        cases.append({"id": None, "observed": observed, "history": [h for h, _ in hist], "label": "limits." + name,
+                      "hlabels": [lb for _, lb in hist]})
+    return cases
+
+
 def gen_case(rng: random.Random, cid: int):
     books = [gen_workbook(rng) for _ in range(2)]
     docs = [gen_doc(rng) for _ in range(2)]
@@ -537,6 +646,9 @@ def run(ck: core.Check):
         "interleavings on live containers; compile-then-render/to_rows; ContentIndexParser with its default TagMatcher(); 12% of them failing) "
         "together with a random history of 1-8 other calls (40% failing: 11 workbook fault classes, 4 document fault classes, bad tag lists, "
         "CRITICAL-exits like the CLI; repeats of the observed call; the same workbook under other tags; other operations on the same document); "
+        "plus a deterministic corpus of workbooks at and just beyond the documented limits (generated / suffixed / given category names of 115, 116, 140 "
+        "characters, field and result values of 640 / 641, names whose field key has 36 / 37 characters; beyond a limit half of them CLI-style), "
+        "each observed after a history that repeats the call itself and runs another shape of the corpus; "
         "each case is run fresh, used (histories accumulate over 4 cases per process) and fresh under every hash seed; "
         "non-trivial = the observed call ran real library code to an answer (result or library exception); distinct = distinct (observed, history) JSON"
     )
@@ -576,6 +688,11 @@ def _run(ck, quick, workdir):
         r2 = random.Random(rng.randrange(1 << 60))
         cases[i]["observed"] = {"op": "logprog", "prog": gen_prog(r2)} if i % 4 == 0 else {"op": "uuiddict", "ops": gen_uuid_ops(r2)}
         cases[i]["label"] = cases[i]["observed"]["op"]
+    # the corpus of documented limits (at / just beyond each boundary), placed inside the hash-seed sweep
+    at = min(24, n_cases)
+    cases[at:at] = gen_limits_cases(random.Random(rng.randrange(1 << 60)))
+    for i, c in enumerate(cases):
+        c["id"] = i
     for c in cases:
         ck.count("observed." + c["label"])
         ck.count("history_length", len(c["history"]))
@@ -700,6 +817,8 @@ def _run(ck, quick, workdir):
                     return sha_of(spec, r) != shaF
                 if fails(c["history"]):
                     replay["history"] = shrink_history(c, workdir, fails)
+                    if not replay["history"]:
+                        w = "two runs of the same call, each in a new process, differ beyond a renaming of invented uuids (no history needed)"
                 else:
                     # needs the longer accumulated history of its process group
                     g = groups[c["id"] // group]
